@@ -449,6 +449,10 @@ def run(ctx):
                     ops = tup[1]["ops"]
                     ds = [derive(ix, o) for o in ops]
                     pairs.append((len(ops), ds, t))
+            elif c in prog.raw_bodies and c.startswith("sqpack::data::") and len(t["args"]) in (3, 6) and any((t2.get("res") or "").endswith("sqpack::read_data_block") for _b2, t2 in prog.raw_bodies[c].calls()):
+                # the same readers written as methods of a state struct: receiver first, then the closure's arguments
+                ops = t["args"][1:]
+                pairs.append((len(ops), [derive(ix, o) for o in ops], t))
         n_pairs = 0
         members = {"stack_size", "runtime_size", "vertex_buffer_size", "index_buffer_size", "edge_geometry_vertex_buffer_size"}
         seen_members = []
